@@ -1,4 +1,5 @@
 CHECK = {
+    "death_is_violation": True,  # "no registry response, however malformed, crashes the server": an exit of the process counts
     "mode": "inpkg", "pkg": "server", "files": ["fr_registry_test.go", "c03_pull_test.go"],
     "level": "fault_enumeration",
     "engine": "fakeregistry",
